@@ -11,9 +11,9 @@ import re
 from vk import core, hist
 
 LEVEL = "model_checking"
-RULE = ("explicit-state BFS over histories of <= 7 (quick) / <= 9 (thorough) operations from a 12-operation "
+RULE = ("explicit-state BFS over histories of <= 7 (quick) / <= 9 (thorough) operations from a 14-operation "
         "alphabet {SessionIdAVP(a.x), SessionIdAVP(b.y), typed ULR(session_id=a.x) (<= 2 messages), "
-        "update_avps(origin_host=a.x|b.y) and update_avps(session_id=a.x) on each message, "
+        "update_avps(origin_host=a.x|b.y|bytes b.y) and update_avps(session_id=a.x) on each message, "
         "AcctMultiSessionIdAVP(a.x), SessionIdAVP(bytes), clock +1 s}; a state = canonical (clock - generator "
         "start, counter, set of issued ids relative to the start second, per message id/identity); each "
         "transition replays the whole history on the real generator; plus stateless schedule exploration of 2 "
@@ -130,10 +130,11 @@ def apply_op(st, op, step):
                 user_name="u", visited_plmn_id=b"\x01\x02\x03", rat_type=b"\x00\x00\x03\xec", ulr_flags=34)
         st.msgs.append(m)
         record(st, "typed-message", op[1], m.session_id_avp.data, errs, step)
-    elif kind == "origin":
+    elif kind in ("origin", "origin-b"):
         m = st.msgs[op[1]]
         before = m.session_id_avp.data
-        m.update_avps({"origin_host": op[2]})
+        # "origin-b": the identity is given as bytes (e.g. relayed from another message's Origin-Host data)
+        m.update_avps({"origin_host": op[2].encode() if kind == "origin-b" else op[2]})
         after = m.session_id_avp.data
         switch = "switch" if not before.startswith(op[2].encode() + b";") else "same"
         record(st, f"bulk-origin-{switch}", op[2], after, errs, step)
@@ -167,7 +168,7 @@ class SidModel:
         if len(st.msgs) < self.max_msgs:
             ops.append(("msg", "a.x"))
         for k in range(len(st.msgs)):
-            ops += [("origin", k, "b.y"), ("origin", k, "a.x"), ("setsid", k, "a.x")]
+            ops += [("origin", k, "b.y"), ("origin", k, "a.x"), ("setsid", k, "a.x"), ("origin-b", k, "b.y")]
         return ops
 
     def step(self, history, op):
